@@ -151,3 +151,30 @@ def asm(tokens):
         else:
             raise TypeError(t)
     return bytes(out)
+
+
+def decode_prefix(script):
+    """the operations that can be read before the bytes stop making sense (a truncated push ends the list)"""
+    out = []
+    i = 0
+    n = len(script)
+    while i < n:
+        o = script[i]
+        start = i
+        i += 1
+        data = None
+        if o <= 0x4e:
+            if o < 0x4c:
+                ln = o
+            else:
+                w = {0x4c: 1, 0x4d: 2, 0x4e: 4}[o]
+                if i + w > n:
+                    return out
+                ln = int.from_bytes(script[i:i + w], "little")
+                i += w
+            if i + ln > n:
+                return out
+            data = bytes(script[i:i + ln])
+            i += ln
+        out.append((start, o, data, i - start))
+    return out
